@@ -9,7 +9,6 @@
 -/
 import SysLoss.Proofs.Reach
 import SysLoss.Spec.Structure
-import SysLoss.Spec.Safe
 
 set_option linter.unusedSectionVars false
 set_option linter.unusedSimpArgs false
@@ -33,6 +32,10 @@ structure Sane (s : Sys π ν) : Prop where
 
 namespace Sys
 
+/-- the recorded input names `_get_parents` consults for node `n` (none unless `n` has several predecessors) -/
+def consulted (s : Sys π ν) (n : Nat) : List String :=
+  if 1 < (s.preds n).length then ((dget s.pnames n).getD []).take (s.preds n).length else []
+
 def names (s : Sys π ν) : List String := s.comps.map fun p => nameOfC p.2
 def railNames (s : Sys π ν) : List String := (dvals s.rails).filter fun r => decide (r ≠ "")
 
@@ -54,7 +57,15 @@ structure WFr (s : Sys π ν) : Prop where
   rails_keys : ∀ x, x ∈ dkeys s.rails ↔ x ∈ s.names
   pconf_keys : ∀ x, x ∈ dkeys s.phaseConf ↔ x ∈ s.names
   inputs : ∀ p ∈ s.comps, 1 < (s.preds p.1).length →
-            ∃ l, s.parentsOf p.1 = .ok l ∧ ∀ x ∈ l, ∃ q ∈ s.preds p.1, x = some q
+            ∃ l, s.parentsOf p.1 = .ok l ∧ (∀ x ∈ l, ∃ q ∈ s.preds p.1, x = some q) ∧ l.Nodup
+
+/-- the part of `WFr` that `_get_index` relies on -/
+structure RegsExact (s : Sys π ν) : Prop where
+  nodes_keys : ∀ x ∈ dkeys s.nodes, x ∈ s.names
+  nodes_get : ∀ p ∈ s.comps, dget s.nodes (nameOfC p.2) = some p.1
+  rails_keys : ∀ x, x ∈ dkeys s.rails ↔ x ∈ s.names
+
+theorem WFr.regs {s : Sys π ν} (hw : WFr s) : RegsExact s := ⟨hw.nodes_keys, hw.nodes_get, hw.rails_keys⟩
 
 /-! ### the graph -/
 
@@ -112,12 +123,15 @@ theorem getIndex_name {s : Sys π ν} (hw : WFr s) {p : Nat × π} (hp : p ∈ s
   unfold Sys.getIndex; rw [hw.nodes_get p hp]
 
 /-- the node a registered name stands for -/
-theorem nodes_get_live {s : Sys π ν} (hw : WFr s) {x : String} {n : Nat} (h : dget s.nodes x = some n) :
+theorem nodes_get_live' {s : Sys π ν} (hw : RegsExact s) {x : String} {n : Nat} (h : dget s.nodes x = some n) :
     ∃ p ∈ s.comps, nameOfC p.2 = x ∧ p.1 = n := by
   obtain ⟨p, hp, hx⟩ := mem_names.mp (hw.nodes_keys x (dget_some_key h))
   have := hw.nodes_get p hp
   rw [hx, h] at this
   exact ⟨p, hp, hx, (Option.some.inj this).symm⟩
+
+theorem nodes_get_live {s : Sys π ν} (hw : WFr s) {x : String} {n : Nat} (h : dget s.nodes x = some n) :
+    ∃ p ∈ s.comps, nameOfC p.2 = x ∧ p.1 = n := nodes_get_live' hw.regs h
 
 theorem railOwner_some {s : Sys π ν} {r o : String} (h : s.railOwner r = some o) : (o, r) ∈ s.rails := by
   unfold Sys.railOwner at h
@@ -143,7 +157,7 @@ theorem railOwner_isSome {s : Sys π ν} {r : String} (h : r ∈ dvals s.rails) 
   | some o => exact ⟨o, rfl⟩
 
 /-- with exact registries `_get_index` never raises, and what it returns is a live node -/
-theorem getIndex_ok {s : Sys π ν} (hw : WFr s) (x : String) : ∃ r, s.getIndex x = .ok r := by
+theorem getIndex_ok' {s : Sys π ν} (hw : RegsExact s) (x : String) : ∃ r, s.getIndex x = .ok r := by
   unfold Sys.getIndex
   cases h1 : dget s.nodes x with
   | some i => exact ⟨_, rfl⟩
@@ -158,6 +172,9 @@ theorem getIndex_ok {s : Sys π ν} (hw : WFr s) (x : String) : ∃ r, s.getInde
         have := hw.nodes_get p hp
         rw [hx] at this
         exact ⟨some p.1, by simp [hx0, this]⟩
+
+theorem getIndex_ok {s : Sys π ν} (hw : WFr s) (x : String) : ∃ r, s.getIndex x = .ok r :=
+  getIndex_ok' hw.regs x
 
 theorem getIndex_live {s : Sys π ν} (hw : WFr s) {x : String} {n : Nat} (h : s.getIndex x = .ok (some n)) :
     n ∈ s.ids := by
